@@ -144,6 +144,19 @@ class Unquoter:
                 # at the end of the input) and its length is three characters per pending byte - it depends on the number of
                 # buffered bytes only, never on the position or on the length of the input
                 why = self._verbatim_length(a[2], st)
+                if why is None:
+                    # two copies in one iteration (the pending run, then the escape that failed on its own) are contiguous:
+                    # the second starts where the first ended, nothing is copied twice or skipped
+                    t_ = e.recv
+                    while t_[0] == "mut":
+                        if t_[2] == "append" and len(t_[3]) == 1 and t_[3][0][0] == "sub" and t_[3][0][1] == ("param", "val") and \
+                                t_[3][0][2][0] == "slice":
+                            prev_hi, this_lo = t_[3][0][2][2], a[2][1]
+                            if prev_hi != NONE and this_lo != NONE and linform(prev_hi) != linform(this_lo):
+                                why = (f"it starts at {show(this_lo)[:40]} although the copy before it in the same iteration ended at "
+                                       f"{show(prev_hi)[:40]}")
+                            break
+                        t_ = t_[1]
                 ctx.ob(rule, self.qual, cons, why is None,
                        f"a verbatim copy of undecodable escapes has a length that is not 3 x (pending bytes): {why}; text before "
                        "the escapes would be repeated, or text after them swallowed", w, sample="length = 3 x pending bytes")
@@ -266,6 +279,13 @@ class Unquoter:
         if aux:
             raise AnalysisError(f"{self.qual}: a verbatim copy is bounded by the loop-carried position {show(aux[0])[:30]} (a remembered start "
                                 "of the pending run): its relation to the scan index is not derived here (unknown idiom)")
+        # ... and it ends where the scan stands (index + constant) or at the end of the input: its upper bound does not depend on
+        # how many bytes are pending
+        if hi != NONE:
+            dh = {k: v for k, v in fhi[0].items() if v}
+            pend = [k for k in dh if k != LEN and not (k[0] == "phi" and self._is_scan_index(k))]
+            if pend:
+                return f"its end {show(hi)[:40]} depends on {[show(k)[:30] for k in pend]} instead of being the scan position"
         positional = [k for k in d if k == LEN or any(x[0] == "phi" and self._is_scan_index(x) for x in walk(k)) or self.is_unit(k)]
         if positional:
             return f"it varies with {[show(k)[:30] if k != LEN else 'the length of the input' for k in positional]}"
